@@ -109,6 +109,16 @@ Theorem C21_exit_status_one :
 Proof. exact thm_exit_status_one. Qed.
 Print Assumptions C21_exit_status_one.
 
+(* lifetime: the application's own close() does NOT unregister the channel (only the peer's CLOSE
+   does), so an exit status that crosses the local close on the wire is still the one reported *)
+Theorem C21_exit_status_after_local_close :
+  forall (k : ctl) (ch : Z -> chan) (c n : Z),
+    k_active k = true -> memz c (k_reg k) = true ->
+    exit_ready (final (k, ch) [LocalClose c; Msg c (ExitStatus n)] c) = true /\
+    c_exit (final (k, ch) [LocalClose c; Msg c (ExitStatus n)] c) = n.
+Proof. exact thm_exit_after_local_close. Qed.
+Print Assumptions C21_exit_status_after_local_close.
+
 (* a message for an id that is not open changes no channel and produces nothing; if the id
    was never seen the loop stops *)
 Theorem C21_unknown_channel :
